@@ -91,6 +91,21 @@ def balanced(lay, tier, p, container="list"):
                         p.evaluations += 1
                         check_balanced_streams(lay, spc, W, shuffle, streams, lens, p, dict(case, seed=seed, epoch=epoch))
                         check_balanced_streams(lay, spc, W, shuffle, second, lens, p, dict(case, seed=seed, epoch=epoch, second_iteration=True))
+                        if W > 1 and seed == 0:
+                            # the ranks do not use their sampler objects alike: rank 0 peeked at one index (a sanity
+                            # check, a progress-bar probe) and has its own copy of the object; the epoch must still be one draw
+                            import copy
+                            uneven = []
+                            for r in range(W):
+                                s = ClassBalancedSampler(ds, shuffle=shuffle, samples_per_class=spc, seed=seed, rank=r, world_size=W)
+                                s.set_epoch(epoch)
+                                if r == 0:
+                                    next(iter(s), None)
+                                if r == W - 1:
+                                    s = copy.deepcopy(s)
+                                uneven.append(list(s))
+                            check_balanced_streams(lay, spc, W, shuffle, uneven, lens, p,
+                                                   dict(case, seed=seed, epoch=epoch, ranks_used_unevenly=True))
                 # every permutation answer when all pools are small
                 if container == "list" and shuffle and max(lay.count(c) for c in set(lay)) <= 3 and (spc or 0) <= 2 and len(lay) <= 4:
                     def body(ch):
